@@ -1,7 +1,7 @@
 //! C04 — evaluation never changes the calculator; sessions isolate and persist correctly.
 
 use super::c03::{step, Binding, Env};
-use crate::explore::{Family, Mode, Verdict};
+use crate::explore::{Bfs, Family, Mode, Verdict};
 use crate::obs::{self, Run, Slot};
 use crate::runner::{Cfg, Ctx, Prop, Tier};
 use serde::{Deserialize, Serialize};
@@ -27,6 +27,8 @@ pub enum Case {
     Sessions(Vec<SOp>),
     /// setter calls and evaluations interleaved on ONE calculator
     Reconf(Vec<ROp>),
+    /// merged breadth-first layer over session operations (bound of the state constraint)
+    SessionsReach(Vec<SOp>, i64),
 }
 
 #[derive(Clone, Debug, Serialize, Deserialize)]
@@ -175,25 +177,29 @@ impl Prop for C04 {
             Mode::Full,
             &format!("every sequence of 1..={} operations over [S1/S2: set_text(t); execute_session for 9 texts of 1..3 lines that bind, re-bind and use two names (incl. CRLF, a failing line, an empty text); plain execute(t) for 3 texts; S1/S2: execute_session again without a new text] on one calculator", ds),
             move |ch| {
+                let alphabet = session_ops();
                 let n = 1 + ch.choose(ds);
                 let mut ops = Vec::new();
                 for _ in 0..n {
-                    let k = ch.choose(SESSION_TEXTS.len() * 2 + 3 + 2);
-                    let op = if k < SESSION_TEXTS.len() {
-                        SOp::SetExec(0, SESSION_TEXTS[k].to_string())
-                    } else if k < 2 * SESSION_TEXTS.len() {
-                        SOp::SetExec(1, SESSION_TEXTS[k - SESSION_TEXTS.len()].to_string())
-                    } else if k < 2 * SESSION_TEXTS.len() + 3 {
-                        SOp::Plain(["a", "a = 1\nb = 2\na + b", "a = a + 1\na"][k - 2 * SESSION_TEXTS.len()].to_string())
-                    } else {
-                        SOp::ReExec((k - 2 * SESSION_TEXTS.len() - 3) as u8)
-                    };
-                    ops.push(op);
+                    ops.push(ch.pick(&alphabet).clone());
                 }
                 Some(Case::Sessions(ops))
             },
         ));
         f
+    }
+
+    fn bfs_layers(&self, tier: Tier) -> Vec<Bfs<Case>> {
+        let ops = session_ops();
+        let n = ops.len();
+        let (bound, depth) = tier.pick((6i64, 5usize), (8, 7));
+        vec![Bfs::new(
+            "reachable-session-states",
+            &format!("explicit-state search over the {} session operations (S1/S2: set_text(t); execute_session for 9 texts, plain execute for 3 texts, S1/S2: execute_session again) on one calculator; a state is the pair of model environments (values of a and b per session), the text each session holds, and the fingerprint of what 'a' and 'b' evaluate to in each session at the end; state constraint: every known value within +-{}; every edge replays the shortest history to its source state on two new sessions, applies the operation and runs the full oracle (model per session, isolation replay, plain evaluations against a fresh calculator); depth bound {}", n, bound, depth),
+            n,
+            depth,
+            move |h| Case::SessionsReach(h.iter().map(|i| ops[*i].clone()).collect(), bound),
+        )]
     }
 
     fn exec(&self, ctx: &mut Ctx, case: &Case) -> Verdict {
@@ -221,7 +227,8 @@ impl Prop for C04 {
                 v.observed = trace;
                 v
             }
-            Case::Sessions(ops) => exec_sessions(ctx, ops),
+            Case::Sessions(ops) => exec_sessions(ctx, ops, None),
+            Case::SessionsReach(ops, bound) => exec_sessions(ctx, ops, Some(*bound)),
             Case::Reconf(ops) => exec_reconf(ctx, ops),
         }
     }
@@ -234,6 +241,23 @@ impl Prop for C04 {
     }
 }
 
+/// the session operation alphabet, in the order the histories enumerate it
+fn session_ops() -> Vec<SOp> {
+    let mut v = Vec::new();
+    for t in SESSION_TEXTS {
+        v.push(SOp::SetExec(0, t.to_string()));
+    }
+    for t in SESSION_TEXTS {
+        v.push(SOp::SetExec(1, t.to_string()));
+    }
+    for t in ["a", "a = 1\nb = 2\na + b", "a = a + 1\na"] {
+        v.push(SOp::Plain(t.to_string()));
+    }
+    v.push(SOp::ReExec(0));
+    v.push(SOp::ReExec(1));
+    v
+}
+
 fn slots_of(run: &Run) -> Option<(bool, Vec<Slot>)> {
     match run {
         Run::Done(o) => Some((o.status, o.slots.clone())),
@@ -241,10 +265,11 @@ fn slots_of(run: &Run) -> Option<(bool, Vec<Slot>)> {
     }
 }
 
-fn exec_sessions(ctx: &mut Ctx, ops: &[SOp]) -> Verdict {
+fn exec_sessions(ctx: &mut Ctx, ops: &[SOp], reach: Option<i64>) -> Verdict {
     let mut v = Verdict { input: format!("{:?}", ops), class: "history-compared", compared: true, ..Default::default() };
     // ---- run the history on one calculator with two sessions
     let mut observed: Vec<Run> = Vec::new();
+    let mut fingerprint = String::new();
     {
         let calc = ctx.calc(&Cfg::default());
         let mut sessions = [Session::new(), Session::new()];
@@ -259,6 +284,13 @@ fn exec_sessions(ctx: &mut Ctx, ops: &[SOp]) -> Verdict {
             };
             v.evals += 1;
             observed.push(run);
+        }
+        if reach.is_some() {
+            // what the two names denote in each session at the end (the sessions are discarded afterwards)
+            for s in sessions.iter_mut() {
+                fingerprint.push_str(&format!("{:?};", obs::eval_session(calc, s, Some(&"a\nb".to_string()))));
+                v.evals += 1;
+            }
         }
     }
     v.observed = observed.iter().map(|r| r.brief()).collect::<Vec<_>>().join(" ;; ");
@@ -332,8 +364,12 @@ fn exec_sessions(ctx: &mut Ctx, ops: &[SOp]) -> Verdict {
         }
         // the replay depends only on the projected operations: memoise it per thread
         let key = format!("proj|{:?}", own.iter().map(|i| &ops[*i]).collect::<Vec<_>>());
-        let replayed: Vec<String> = match ctx.memo.get(&key) {
-            Some(j) => j.split('\u{1}').map(|s| s.to_string()).collect(),
+        let cached = ctx.memo.get(&key).cloned().or_else(|| crate::runner::shared_get(&key));
+        let replayed: Vec<String> = match cached {
+            Some(j) => {
+                ctx.memo.entry(key.clone()).or_insert_with(|| j.clone());
+                j.split('\u{1}').map(|s| s.to_string()).collect()
+            }
             None => {
                 let calc = ctx.fresh(&Cfg::default());
                 let mut session = Session::new();
@@ -348,6 +384,7 @@ fn exec_sessions(ctx: &mut Ctx, ops: &[SOp]) -> Verdict {
                     v.evals += 1;
                     outs.push(format!("{:?}", run));
                 }
+                crate::runner::shared_put(key.clone(), outs.join("\u{1}"));
                 ctx.memo.insert(key, outs.join("\u{1}"));
                 outs
             }
@@ -369,6 +406,17 @@ fn exec_sessions(ctx: &mut Ctx, ops: &[SOp]) -> Verdict {
                 v.violation = Some(format!("step {}: plain execute({:?}) differs from the same text on a fresh calculator", i, t));
                 return v;
             }
+        }
+    }
+    if let Some(bound) = reach {
+        let within = envs.iter().all(|e| {
+            e.values().all(|b| match b {
+                Binding::Known(crate::obs::Val::Number(x, _)) => x.abs() <= bound as f64,
+                _ => true,
+            })
+        });
+        if within {
+            v.key = Some(format!("{:?}|{:?}|{:?}|{}", envs[0], envs[1], current, fingerprint));
         }
     }
     v
